@@ -767,6 +767,10 @@ mod os {
                     | (error_buf[1] as u32) << 8
                     | (error_buf[2] as u32) << 16
                     | (error_buf[3] as u32) << 24;
+                // The child has reported the failure and is exiting.  Reap it
+                // here, because a detached Popen is not waited for on drop
+                // and the caller never gets a handle to do it.
+                self.os_wait().ok();
                 Err(PopenError::from(io::Error::from_raw_os_error(
                     error_code as i32,
                 )))
